@@ -1,7 +1,9 @@
 /-
 C02 — gradient, Hessian and BHHH returned with a value are its true derivatives.
 Property theorems only (lemmas in Proofs/Diff.lean, Proofs/FinDiff.lean, Proofs/IdManager.lean).
-Models: Model/Diff.lean (differentiation), Model/FinDiff.lean (tools.derivatives), Model/IdManager.lean (literal ids).
+Models: Model/Diff.lean (differentiation), Model/FinDiff.lean (tools.derivatives), Model/IdManager.lean (literal ids),
+Model/DerivOut.lean (round 3: named outputs, packaging of the engine arrays, tuple unpacking, create_function /
+create_objective_function, positional points, successive calls; lemmas in Proofs/DerivOut.lean).
 -/
 import Model.Diff
 import Proofs.Diff
@@ -9,8 +11,10 @@ import Model.FinDiff
 import Proofs.FinDiff
 import Model.IdManager
 import Proofs.IdManager
+import Model.DerivOut
+import Proofs.DerivOut
 
-open Diff
+open Diff DerivOut
 
 namespace C02
 
@@ -186,6 +190,167 @@ theorem parameter_named_like_column_refused {α} (decls : List (Decl ν α)) (rv
 
 end ids
 
+
+/-! ### round 3: how the derivatives leave the library (named outputs, shared numbering, packaging, unpacking,
+objective functions, successive calls) -/
+
+/-- **Named gradient: the entry read under name `n` is the derivative with respect to `n`**, when the names are
+numbered by `expressions_names_indices` (position in the list) and converted by `convert_to_dict`. -/
+theorem named_lookup {α} [NumOps α] (names : List String) (hnd : names.Nodup) (env : Env α) (e : E α)
+    (k : Nat) (n : String) (hk : names[k]? = some n) :
+    ∃ d, namedVec (indices names) (grad names env e) = some d ∧ dictGet d n = some (ev env (diff n e)) := by
+  obtain ⟨d, h1, h2⟩ := namedVec_get (ev env e) names (grad names env e) (by simp [grad]) n
+  refine ⟨d, h1, ?_⟩
+  rw [h2, IdM.indexOf_of_get names hnd k n hk]
+  simp [List.getD_eq_getElem?_getD, entry_name names env e k n hk]
+
+/-- **Named Hessian: the entry read under `(i, j)` is the second derivative with respect to `i` and `j`** (the same
+conversion is used for the BHHH matrix and for each observation of the per-observation outputs). -/
+theorem named_hess_lookup {α} [NumOps α] (names : List String) (hnd : names.Nodup) (env : Env α) (e : E α)
+    (a b : Nat) (i j : String) (ha : names[a]? = some i) (hb : names[b]? = some j) :
+    ∃ D, namedMat (indices names) (hess names env e) = some D ∧
+      matGet D i j = some (ev env (diff j (diff i e))) := by
+  obtain ⟨D, h1, h2⟩ := namedMat_get (ev env e) names (hess names env e) (by simp [hess])
+    (by intro r hr; simp only [hess, List.mem_map] at hr; obtain ⟨_, _, rfl⟩ := hr; simp) i j
+  refine ⟨D, h1, ?_⟩
+  rw [h2, IdM.indexOf_of_get names hnd a i ha, IdM.indexOf_of_get names hnd b j hb]
+  have := hess_entry_name names env e a b i j ha hb
+  simp only [Option.bind_some, Option.map_some]
+  cases hA : (hess names env e)[a]? with
+  | none => simp [hA] at this
+  | some r =>
+    simp only [hA, Option.bind_some] at this
+    simp [List.getD_eq_getElem?_getD, hA, this]
+
+/-- **a named matrix of any content** (BHHH, per-observation Hessian): entry `(i, j)` of the two-level dictionary
+is the entry at the positions of `i` and `j` in the id manager's list -/
+theorem named_matrix_lookup (names : List String) (hnd : names.Nodup) (M : List (List ℝ))
+    (hr : M.length = names.length) (hc : ∀ r ∈ M, r.length = names.length)
+    (a b : Nat) (i j : String) (ha : names[a]? = some i) (hb : names[b]? = some j) :
+    ∃ D, namedMat (indices names) M = some D ∧ matGet D i j = some (entry M a b) := by
+  obtain ⟨D, h1, h2⟩ := namedMat_get (0 : ℝ) names M hr hc i j
+  refine ⟨D, h1, ?_⟩
+  rw [h2, IdM.indexOf_of_get names hnd a i ha, IdM.indexOf_of_get names hnd b j hb]
+  rfl
+
+/-- `convert_to_dict` raises IndexError exactly when an index of the map is outside the sequence -/
+theorem convert_to_dict_refuses (m : List (String × Nat)) (seq : List ℝ) :
+    convertToDict m seq = none ↔ ∃ p ∈ m, seq.length ≤ p.2 :=
+  convertToDict_none_iff m seq
+
+/-- **A parameter that does not occur in the formula has a zero entry** (gradient, and Hessian row/column):
+this is what the engine must report for the parameters of the OTHER formulas of a shared id manager. -/
+theorem foreign_parameter_zero (env : Env ℝ) (n m : String) (e : E ℝ) (h : n ∉ pars e) :
+    ev env (diff n e) = 0 ∧ ev env (diff n (diff m e)) = 0 ∧
+      (Regular env e → ev env (diff m (diff n e)) = 0) := by
+  have h2 : ev env (diff n (diff m e)) = 0 :=
+    foreign_zero env n (diff m e) (fun hc => h (pars_diff_subset m e n hc))
+  exact ⟨foreign_zero env n e h, h2, fun hr => by rw [Diff.hess_symm env m n e hr]; exact h2⟩
+
+/-- **Shared numbering.**  Whatever formulas contributed declarations to the id manager (`decls`: the parameters of
+ALL the formulas that share it), when `prepare` accepts them the named gradient of a formula `e` computed over the
+manager's list has, under every name of that list, the derivative of `e` with respect to that parameter - zero for
+the parameters that belong to the other formulas only. -/
+theorem named_entry_shared {α'} (decls : List (IdM.Decl String α')) (rvs draws cols : List String)
+    (t : IdM.Table String) (h : IdM.prepare decls rvs draws cols = .ok t) (env : Env ℝ) (e : E ℝ)
+    (n : String) (hn : n ∈ t.free) :
+    ∃ d, namedVec (indices t.free) (grad t.free env e) = some d ∧ dictGet d n = some (ev env (diff n e)) ∧
+      (n ∉ pars e → dictGet d n = some 0) := by
+  have hnd : t.free.Nodup := by
+    unfold IdM.prepare at h
+    simp only at h
+    split at h
+    · cases h
+      exact IdM.nodup_sortDedup _
+    · cases h
+  obtain ⟨k, hk⟩ := List.getElem?_of_mem hn
+  obtain ⟨d, h1, h2⟩ := named_lookup t.free hnd env e k n hk
+  exact ⟨d, h1, h2, fun hf => by rw [h2, foreign_zero env n e hf]⟩
+
+/-- **Packaging of the engine's arrays** (`calculate_function_and_derivatives`): the aggregated mode returns entry 0
+of each requested array and nothing else; with a database the per-observation mode returns the requested arrays as
+they are; without a database the single observation is returned like an aggregated output, and more than one entry
+is refused. -/
+theorem package_slots {α : Type} (fl : Flags) (hasDb : Bool) (f0 : α) (fs : List α) (g0 : List α) (gs : List (List α))
+    (h0 b0 : List (List α)) (hs bs : List (List (List α))) :
+    calcPackage fl true hasDb ⟨f0 :: fs, g0 :: gs, h0 :: hs, b0 :: bs⟩ =
+      .ok (.agg ⟨f0, if fl.gradient then some g0 else none, if fl.hessian then some h0 else none,
+                 if fl.bhhh then some b0 else none⟩) ∧
+    calcPackage fl false true ⟨f0 :: fs, g0 :: gs, h0 :: hs, b0 :: bs⟩ =
+      .ok (.dis ⟨f0 :: fs, if fl.gradient then some (g0 :: gs) else none, if fl.hessian then some (h0 :: hs) else none,
+                 if fl.bhhh then some (b0 :: bs) else none⟩) ∧
+    calcPackage fl false false ⟨[f0], [g0], [h0], [b0]⟩ = calcPackage fl true false ⟨[f0], [g0], [h0], [b0]⟩ ∧
+    (∀ f1, calcPackage fl false false ⟨f0 :: f1 :: fs, g0 :: gs, h0 :: hs, b0 :: bs⟩ = .error "BiogemeError") :=
+  ⟨calcPackage_agg fl hasDb f0 fs g0 gs h0 b0 hs bs, calcPackage_dis fl _, calcPackage_nodb fl f0 g0 h0 b0,
+   fun f1 => calcPackage_nodb_many fl f0 f1 fs _ _ _⟩
+
+/-- **Tuple unpacking of an output** yields the value, the gradient, the Hessian and the BHHH matrix of the output, in
+that order; every later unpacking of the same object is refused, and the object is never changed by it. -/
+theorem unpack_once {α : Type} (o : Agg α) (k : Nat) :
+    (Proxy.iter ⟨o, false⟩).1 = .ok (o.f, o.g, o.h, o.b) ∧
+    ((Proxy.iter ⟨o, false⟩).2.iters k).1 = List.replicate k (.error "TypeError") ∧
+    ((Proxy.iter ⟨o, false⟩).2.iters k).2.data = o := by
+  have h := iters_done (Proxy.iter ⟨o, false⟩).2 rfl k
+  exact ⟨rfl, h.1, by rw [h.2]; rfl⟩
+
+/-- **`create_objective_function`: `_f`, `_f_g` and `_f_g_h` report the same function at the same positional point**
+(coordinate k = value of the k-th name of the id manager), `_f_g` without a Hessian; a vector of another length is
+refused. -/
+theorem objective_reports_same_function (names : List String) (envs : List (Env ℝ)) (e : E ℝ) (x : List ℝ)
+    (hx : x.length = names.length) :
+    objF names envs e x = .ok (aggValue (envs.map (pointEnv names x)) e) ∧
+    objFG names envs e x = .ok (aggValue (envs.map (pointEnv names x)) e,
+      some (aggGrad names (envs.map (pointEnv names x)) e), none) ∧
+    objFGH names envs e x = .ok (aggValue (envs.map (pointEnv names x)) e,
+      some (aggGrad names (envs.map (pointEnv names x)) e), some (aggHess names (envs.map (pointEnv names x)) e)) ∧
+    (∀ y : List ℝ, y.length ≠ names.length → objF names envs e y = .error "BiogemeError") := by
+  refine ⟨?_, ?_, ?_, ?_⟩
+  · simp [objF, myFunctionRaw, package, hx, engineAgg, calcPackage_agg, Except.map]
+  · simp [objFG, myFunctionRaw, package, hx, engineAgg, calcPackage_agg, Except.map]
+  · simp [objFGH, myFunctionRaw, package, hx, engineAgg, calcPackage_agg, Except.map]
+  · intro y hy
+    simp [objF, myFunctionRaw, package, hy, Except.map]
+
+/-- **The gradient reported by the objective function is the derivative of the value it reports**: entry k of the
+gradient of `_f_g` / `_f_g_h` at `x` is the derivative of `t ↦ _f(x with coordinate k set to t)`, for any list of
+names of the id manager (also names that do not occur in the formula). -/
+theorem objective_gradient_correct (names : List String) (hnd : names.Nodup) (envs : List (Env ℝ)) (e : E ℝ)
+    (x : List ℝ) (hx : x.length = names.length) (k : Nat) (n : String) (hk : names[k]? = some n)
+    (hreg : ∀ env ∈ envs, Regular (pointEnv names x env) e) :
+    HasDerivAt (fun t => aggValue (envs.map (pointEnv names (x.set k t))) e)
+      ((aggGrad names (envs.map (pointEnv names x)) e).getD k 0) (x.getD k 0) := by
+  have hkl : k < x.length := by
+    have := indexOf_lt n names k (IdM.indexOf_of_get names hnd k n hk)
+    omega
+  have h := agg_deriv n e (x.getD k 0) (envs.map (pointEnv names x)) (by
+    intro env henv
+    obtain ⟨b, hb, rfl⟩ := List.mem_map.mp henv
+    exact ⟨hreg b hb, pointEnv_par names hnd x k n hk b hkl⟩)
+  have hf : (fun t => Num.sum ((envs.map (pointEnv names x)).map fun env => ev (env.setPar n t) e)) =
+      fun t => aggValue (envs.map (pointEnv names (x.set k t))) e := by
+    funext t
+    simp only [aggValue, List.map_map]
+    congr 1
+    apply List.map_congr_left
+    intro b _
+    simp only [Function.comp, pointEnv_set names hnd x hx k n hk b t]
+  have hg : Num.sum ((envs.map (pointEnv names x)).map fun env => ev env (diff n e)) =
+      (aggGrad names (envs.map (pointEnv names x)) e).getD k 0 := by
+    rw [getD_aggGrad]
+    simp only [NumR.sum_real]
+    congr 1
+    apply List.map_congr_left
+    intro env _
+    simp [grad, List.getD_eq_getElem?_getD, List.getElem?_map, hk]
+  rw [hf, hg] at h
+  exact h
+
+/-- **Outputs of successive calls on one object do not alias**: every call allocates the arrays it returns, so
+after any sequence of calls the i-th returned output still holds what was computed at the i-th point. -/
+theorem outputs_do_not_alias {β γ : Type} (H : β → γ) (xs : List β) (i : Nat) :
+    (runCalls H xs)[i]? = xs[i]?.map H := by
+  rw [runCalls_eq, List.getElem?_map]
+
 /-! ### non-vacuity -/
 
 /-- log(exp(b·x) + 1) / b² at b = 1/2, x = 2 is regular -/
@@ -210,5 +375,24 @@ example : (IdM.prepare (α := Nat) [⟨"b2", false, 0, none, none⟩, ⟨"b10", 
     (fun t => (t.free, t.uid "b2")) = some (["b10", "b2"], some 1) := by decide
 example : (IdM.prepare (α := Nat) [⟨"b1", false, 0, none, none⟩, ⟨"cost", false, 0, none, none⟩] [] [] ["x", "cost"]).toOption.isNone = true := by
   decide
+
+/-- shared numbering: an id manager that serves the formula b·x and another formula with the parameters a0, b, zz is
+accepted and lists ["a0", "b", "zz"]; "a0" and "zz" are foreign to b·x -/
+example : (IdM.prepare (α := Nat) [⟨"b", false, 0, none, none⟩, ⟨"zz", false, 0, none, none⟩, ⟨"a0", false, 0, none, none⟩,
+    ⟨"b", false, 0, none, none⟩] [] [] ["x"]).toOption.map (·.free) = some ["a0", "b", "zz"] := by decide
+example : "a0" ∉ pars (.mul (.par "b") (.var "x") : E ℝ) := by simp [pars]
+/-- a mapping that points outside the vector is refused -/
+example : convertToDict [("a", 0), ("b", 2)] [(1 : Nat), 2] = none := by decide
+/-- unpacking twice -/
+example : ((Proxy.iter ⟨(⟨1, some [2], none, none⟩ : Agg Nat), false⟩).2.iters 2).1 =
+    [.error "TypeError", .error "TypeError"] := rfl
+/-- the positional point [5, 7] under the names ["a", "b"] gives b the value 7; a fixed parameter keeps its value -/
+example : ((pointEnv ["a", "b"] [5, 7] ({ par := fun _ => 1, var := fun _ => 0 } : Env Nat)).par "b",
+    (pointEnv ["a", "b"] [5, 7] ({ par := fun _ => 1, var := fun _ => 0 } : Env Nat)).par "c") = (7, 1) := by decide
+/-- every formula is regular where it has no division, logarithm or power: the hypothesis of
+`objective_gradient_correct` is satisfiable with two rows and a foreign name in the list -/
+example : ∀ env ∈ [({ par := fun _ => 1, var := fun _ => 2 } : Env ℝ), { par := fun _ => 1, var := fun _ => 3 }],
+    Regular (pointEnv ["a0", "b"] [0, 1] env) (.mul (.par "b") (.var "x")) := by
+  intro env _; simp [Regular]
 
 end C02
